@@ -21,7 +21,111 @@ pub use shuttle::sync::mpsc::{RecvError, RecvTimeoutError, SendError, TryRecvErr
 pub use shuttle::sync::atomic::{
     AtomicBool, AtomicI32, AtomicI64, AtomicIsize, AtomicU32, AtomicU64, AtomicUsize,
 };
-pub use shuttle::sync::{Barrier, Condvar, Mutex, MutexGuard, RwLock};
+pub use shuttle::sync::{Barrier, Mutex, MutexGuard, RwLock};
+
+/// Result of a timed wait (`std::sync::WaitTimeoutResult` has no public constructor).
+#[derive(Clone, Copy, Debug, PartialEq, Eq)]
+pub struct WaitTimeoutResult(bool);
+impl WaitTimeoutResult {
+    pub fn timed_out(&self) -> bool {
+        self.0
+    }
+}
+
+/// A timer of the simulation: a short-lived extra task that performs `fire` at some later
+/// scheduling point. shuttle's own timed waits (`Condvar::wait_timeout`, `park_timeout`) never time
+/// out, which would turn correct code that relies on a timeout for progress into a false deadlock;
+/// with a timer task every timed wait is eventually woken, exactly as in reality, and *when* is the
+/// scheduler's decision like everything else.
+fn sim_timer(fire: impl FnOnce() + Send + 'static) {
+    bump(|p| p.timed_waits += 1);
+    let _ = shuttle::thread::Builder::new().stack_size(1 << 16).spawn(move || {
+        shuttle::thread::sleep(Duration::from_millis(0));
+        fire();
+    });
+}
+
+/// `std::sync::Condvar` stand-in: shuttle's, except that timed waits really time out.
+#[derive(Debug, Default)]
+pub struct Condvar {
+    inner: Arc<shuttle::sync::Condvar>,
+}
+impl Condvar {
+    pub fn new() -> Condvar {
+        Condvar { inner: Arc::new(shuttle::sync::Condvar::new()) }
+    }
+    pub fn wait<'a, T>(&self, guard: MutexGuard<'a, T>) -> std::sync::LockResult<MutexGuard<'a, T>> {
+        self.inner.wait(guard)
+    }
+    pub fn wait_while<'a, T, F>(&self, guard: MutexGuard<'a, T>, condition: F) -> std::sync::LockResult<MutexGuard<'a, T>>
+    where
+        F: FnMut(&mut T) -> bool,
+    {
+        self.inner.wait_while(guard, condition)
+    }
+    pub fn wait_timeout<'a, T>(&self, guard: MutexGuard<'a, T>, dur: Duration) -> std::sync::LockResult<(MutexGuard<'a, T>, WaitTimeoutResult)> {
+        let fired = Arc::new(std::sync::atomic::AtomicBool::new(false));
+        let returned = Arc::new(std::sync::atomic::AtomicBool::new(false));
+        let (cv, f2, r2) = (self.inner.clone(), fired.clone(), returned.clone());
+        // the timer keeps notifying until the waiter is back: a single notification could land in
+        // the window between the spawn of the timer and the start of the wait and be lost
+        sim_timer(move || {
+            f2.store(true, Relaxed);
+            while !r2.load(Relaxed) {
+                cv.notify_all();
+                shuttle::thread::yield_now();
+            }
+        });
+        let r = self.inner.wait(guard);
+        returned.store(true, Relaxed);
+        let timed_out = fired.load(Relaxed);
+        if timed_out {
+            clock_advance(dur);
+        }
+        match r {
+            Ok(g) => Ok((g, WaitTimeoutResult(timed_out))),
+            Err(e) => Err(std::sync::PoisonError::new((e.into_inner(), WaitTimeoutResult(timed_out)))),
+        }
+    }
+    pub fn wait_timeout_while<'a, T, F>(&self, mut guard: MutexGuard<'a, T>, dur: Duration, mut condition: F) -> std::sync::LockResult<(MutexGuard<'a, T>, WaitTimeoutResult)>
+    where
+        F: FnMut(&mut T) -> bool,
+    {
+        // one timer for the whole call: once it has fired the call returns whatever the condition says
+        let fired = Arc::new(std::sync::atomic::AtomicBool::new(false));
+        let returned = Arc::new(std::sync::atomic::AtomicBool::new(false));
+        let (cv, f2, r2) = (self.inner.clone(), fired.clone(), returned.clone());
+        sim_timer(move || {
+            f2.store(true, Relaxed);
+            while !r2.load(Relaxed) {
+                cv.notify_all();
+                shuttle::thread::yield_now();
+            }
+        });
+        while condition(&mut *guard) {
+            if fired.load(Relaxed) {
+                returned.store(true, Relaxed);
+                clock_advance(dur);
+                return Ok((guard, WaitTimeoutResult(true)));
+            }
+            guard = match self.inner.wait(guard) {
+                Ok(g) => g,
+                Err(e) => {
+                    returned.store(true, Relaxed);
+                    return Err(std::sync::PoisonError::new((e.into_inner(), WaitTimeoutResult(fired.load(Relaxed)))));
+                }
+            };
+        }
+        returned.store(true, Relaxed);
+        Ok((guard, WaitTimeoutResult(false)))
+    }
+    pub fn notify_one(&self) {
+        self.inner.notify_one()
+    }
+    pub fn notify_all(&self) {
+        self.inner.notify_all()
+    }
+}
 pub use std::sync::Arc;
 pub mod atomic {
     pub use shuttle::sync::atomic::*;
@@ -57,6 +161,7 @@ pub struct Probes {
     pub yields: u32,
     pub clock_reads: u32,
     pub clock_ticks: u32,
+    pub timed_waits: u32,
 }
 
 thread_local! {
@@ -65,7 +170,7 @@ thread_local! {
         avail_calls: 0, channels: 0, spawns: 0, sends: 0, send_errs: 0, recvs_ok: 0,
         recvs_disc: 0, recv_on_empty: 0, try_recv_empty: 0, timer_fires: 0, timer_polls: 0,
         sender_clones: 0, last_sender_drop_while_recv_waiting: 0, clones_at_first_recv: 0,
-        sleeps: 0, yields: 0, clock_reads: 0, clock_ticks: 0 }) };
+        sleeps: 0, yields: 0, clock_reads: 0, clock_ticks: 0, timed_waits: 0 }) };
     /// upper bound on polling rounds of a simulated timer before it must fire
     static TIMER_MAX_POLLS: Cell<u32> = const { Cell::new(3) };
     /// simulated monotonic clock (ns); it only moves once the code under test has looked at it
@@ -201,15 +306,29 @@ pub mod thread {
         bump(|p| p.yields += 1);
         shuttle::thread::yield_now()
     }
+    /// shuttle's `park_timeout` never times out; here a timer task unparks the thread eventually
     pub fn park_timeout(d: Duration) {
-        shuttle::thread::park_timeout(d)
+        let me = shuttle::thread::current();
+        super::sim_timer(move || me.unpark());
+        shuttle::thread::park();
+        super::clock_advance(d);
+        super::clock_tick();
     }
 
-    /// `std::thread::Scope` stand-in. shuttle's `spawn` has its scheduling point *before* the new
-    /// task exists, so the spawner could never be pre-empted between a spawn and its next
-    /// statement; a real spawner can. The wrapper adds that point after every spawn.
+    /// `std::thread::scope` stand-in, built on shuttle's plain `spawn` rather than on shuttle's own
+    /// `scope`: (1) shuttle's `spawn` has its scheduling point *before* the new task exists, so the
+    /// spawner could never be pre-empted between a spawn and its next statement - the wrapper adds
+    /// that point after every spawn; (2) shuttle's scope *unblocks the spawning task whenever the last
+    /// scoped thread exits*, whatever that task is blocked on - a spawner waiting on a condition
+    /// variable or parked with a timeout inside the scope would be woken "from nowhere" and shuttle
+    /// panics ("should not have been woken while in Waiting status"): a false alarm on correct code.
+    /// Here the end of the scope waits on a counter of running threads under its own lock.
+    struct ScopeState {
+        running: shuttle::sync::Mutex<usize>,
+        all_done: shuttle::sync::Condvar,
+    }
     pub struct Scope<'scope, 'env: 'scope> {
-        inner: *const (),
+        state: Arc<ScopeState>,
         _scope: std::marker::PhantomData<&'scope mut &'scope ()>,
         _env: std::marker::PhantomData<&'env mut &'env ()>,
     }
@@ -217,14 +336,21 @@ pub mod thread {
     unsafe impl Sync for Scope<'_, '_> {}
 
     pub struct ScopedJoinHandle<'scope, T> {
-        inner: shuttle::thread::ScopedJoinHandle<'scope, T>,
+        inner: JoinHandle<()>,
+        slot: Arc<std::sync::Mutex<Option<T>>>,
+        finished: Arc<std::sync::atomic::AtomicBool>,
+        _scope: std::marker::PhantomData<&'scope ()>,
     }
     impl<'scope, T> ScopedJoinHandle<'scope, T> {
         pub fn join(self) -> Result<T> {
-            self.inner.join()
+            self.inner.join()?;
+            match self.slot.lock().unwrap().take() {
+                Some(v) => Ok(v),
+                None => Err(Box::new("scoped thread produced no value")),
+            }
         }
         pub fn is_finished(&self) -> bool {
-            self.inner.is_finished()
+            self.finished.load(Relaxed)
         }
         pub fn thread(&self) -> &Thread {
             self.inner.thread()
@@ -237,14 +363,28 @@ pub mod thread {
             F: FnOnce() -> T + Send + 'scope,
             T: Send + 'scope,
         {
-            // SAFETY: `inner` points at the shuttle scope object that `scope()` below borrowed for
-            // the whole call of the user's closure; shuttle's scope outlives `'scope` and joins
-            // every spawned task before it returns, exactly like std's.
-            let real: &'scope shuttle::thread::Scope<'scope, 'env> = unsafe { &*(self.inner as *const shuttle::thread::Scope<'scope, 'env>) };
             bump(|p| p.spawns += 1);
-            let h = real.spawn(f);
+            *self.state.running.lock().unwrap() += 1;
+            let slot: Arc<std::sync::Mutex<Option<T>>> = Arc::new(std::sync::Mutex::new(None));
+            let finished = Arc::new(std::sync::atomic::AtomicBool::new(false));
+            let (slot2, fin2, st) = (slot.clone(), finished.clone(), self.state.clone());
+            let body: Box<dyn FnOnce() + Send + 'scope> = Box::new(move || {
+                let v = f();
+                *slot2.lock().unwrap() = Some(v);
+                fin2.store(true, Relaxed);
+                let mut n = st.running.lock().unwrap();
+                *n -= 1;
+                if *n == 0 {
+                    st.all_done.notify_all();
+                }
+            });
+            // SAFETY: `scope()` below does not return before `running` is back to 0, i.e. before every
+            // spawned body has finished with everything it borrowed for `'scope` (same argument as
+            // std's and shuttle's scoped threads).
+            let body: Box<dyn FnOnce() + Send + 'static> = unsafe { std::mem::transmute(body) };
+            let inner = shuttle::thread::spawn(body);
             sched_point();
-            ScopedJoinHandle { inner: h }
+            ScopedJoinHandle { inner, slot, finished, _scope: std::marker::PhantomData }
         }
     }
 
@@ -294,10 +434,18 @@ pub mod thread {
     where
         F: for<'scope> FnOnce(&'scope Scope<'scope, 'env>) -> T,
     {
-        shuttle::thread::scope(|s| {
-            let w = Scope { inner: s as *const _ as *const (), _scope: std::marker::PhantomData, _env: std::marker::PhantomData };
-            f(&w)
-        })
+        let w = Scope {
+            state: Arc::new(ScopeState { running: shuttle::sync::Mutex::new(0), all_done: shuttle::sync::Condvar::new() }),
+            _scope: std::marker::PhantomData,
+            _env: std::marker::PhantomData,
+        };
+        let out = f(&w);
+        let mut n = w.state.running.lock().unwrap();
+        while *n > 0 {
+            n = w.state.all_done.wait(n).unwrap();
+        }
+        drop(n);
+        out
     }
 }
 
